@@ -15,7 +15,7 @@ PROPERTY = "C19"
 LEVEL = "exploration"
 RULE = ("Every monitored call on one model is replayed on the four sibling classes and the outcomes (value or exception "
         "class) compared: predict_win/draw/rank on identical (mu, sigma) and parameters (1e-12 absolute on probabilities; differences in "
-        "(0,1e-12] are counted as ulp_level_divergences); the C13 grammar of malformed and well-formed arguments (same "
+        "(0,1e-12] are counted as ulp_level_divergences); the C13 grammar of malformed and well-formed arguments plus sampled DOUBLE faults (same "
         "accept/reject decision, same exception class); public operations and their signatures (names, kinds, defaults; "
         "default gamma compared by behaviour; annotations ignored); rating classes on a common probe set (comparison "
         "results or exception class, equality, hash-equality pattern, deepcopy behaviour, ordinal, repr shape); and "
@@ -170,6 +170,29 @@ def probe_grammar(ctx, payload):
             continue
         for op in ("rate", "predict_win", "predict_draw", "predict_rank"):
             each(label, op, lambda model, teams, kw, m, b=builder, op=op: ((b(model, teams, Ms),), (kw if op == "rate" else {})))
+    # double faults: two malformed positions in one argument (the ORDER in which a validator meets them decides which
+    # exception class comes out, so a validator restructured in one copy shows here and nowhere else)
+    singles = [(l, b) for l, b in V.teams_level() if l.startswith(("team[", "player[")) and "rating of" not in l]
+    import random as _random
+
+    rr = _random.Random(repr(case["teams"][0][0]))
+    pairs = []
+    for _ in range(60):
+        (l1, b1), (l2, b2) = rr.sample(singles, 2)
+        i1, i2 = l1.split("]")[0].split("[")[1], l2.split("]")[0].split("[")[1]
+        if i1 != i2:
+            pairs.append((l1, b1, l2, b2))
+    for l1, b1, l2, b2 in pairs[:24]:
+        for op in ("rate", "predict_win"):
+            def mk2(model, teams, kw, m, b1=b1, b2=b2, op=op):
+                t1 = b1(model, teams, Ms)
+                # the second edit is applied to the result of the first (different team index, so they do not collide)
+                t2 = b2(model, t1, Ms) if all(isinstance(x, list) for x in t1) else t1
+                return (t2,), (kw if op == "rate" else {})
+            try:
+                each(f"double fault: {l1} + {l2}", op, mk2)
+            except Exception:  # noqa: BLE001 - a builder that cannot be applied on top of another one is skipped
+                ctx.skip("double-fault")
     # foreign-model rating at each position: model m receives a rating of model next(m)
     for i in range(V.n):
         for j in range(V.sizes[i]):
